@@ -5,6 +5,8 @@ import (
 	"go/types"
 	"strconv"
 	"strings"
+
+	"golang.org/x/tools/go/ssa"
 )
 
 // ---- contract expression AST ------------------------------------------------------------------
@@ -411,6 +413,18 @@ func (ev *evalEnv) eval(e *Expr) tv {
 		}
 		if k, ok := c.eng.constOf(ev.pkg, e.Name); ok {
 			return mathInt(k)
+		}
+		if ev.pkg != nil {
+			if sp := c.eng.spkgs[ev.pkg.Path()]; sp != nil {
+				if g, ok := sp.Members[e.Name].(*ssa.Global); ok {
+					el := g.Type().Underlying().(*types.Pointer).Elem()
+					saved := c.st
+					c.st = ev.st
+					v := c.load(c.val(g), el)
+					c.st = saved
+					return tv{v: v, t: el}
+				}
+			}
 		}
 		ev.fail("unknown identifier %s", e.Name)
 	case "old":
@@ -836,6 +850,19 @@ func (ev *evalEnv) call(e *Expr) tv {
 			parts = append(parts, "(* "+pow2(int64(8*k))+" "+b+")")
 		}
 		return mathInt("(+ " + strings.Join(parts, " ") + ")")
+	case "deferred":
+		// deferred(funcName): a defer of that function dominates the current program point
+		if e.A[0].Op != "ident" {
+			ev.fail("deferred(funcName)")
+		}
+		for _, d := range c.defers {
+			if cal := d.Call.StaticCallee(); cal != nil && cal.Name() == e.A[0].Name {
+				if d.Block() == c.curB || d.Block().Dominates(c.curB) {
+					return mathBool("true")
+				}
+			}
+		}
+		return mathBool("false")
 	case "heap":
 		// heap(Type.field, ref): the value of a scalar field of an arbitrary object (for heap-wide invariants)
 		if e.A[0].Op != "sel" || e.A[0].A[0].Op != "ident" || ev.pkg == nil {
